@@ -430,8 +430,16 @@ func (c *Check) reproduces(p *plan.Plan, class string) *Violation {
 	}
 	var last *Violation
 	hits := 0
+	capped := 0
 	for i := 0; i < tries; i++ {
 		pr := c.env.Run(p)
+		if procState(pr) == "watchdog" && !strings.HasPrefix(class, "hang:") && capped < 2 {
+			// the run was cut off by the wall-clock cap (a loaded machine): no verdict either way, not an attempt
+			capped++
+			i--
+			c.count("confirm_runs_cut_off_by_wall_cap", 1)
+			continue
+		}
 		j := c.judge(c, p, pr)
 		for k := range j.Violations {
 			if sameClass(class, j.Violations[k].Class) {
